@@ -1535,8 +1535,10 @@ DLLEXPORT int tj3EncodeYUVPlanes8(tjhandle handle, const unsigned char *srcBuf,
   int i, retval = 0, row, pw0, ph0, pw[MAX_COMPONENTS], ph[MAX_COMPONENTS];
   JSAMPLE *ptr;
   jpeg_component_info *compptr;
+  boolean lossless = FALSE;
 
   GET_CINSTANCE(handle)
+  lossless = this->lossless;
 
   for (i = 0; i < MAX_COMPONENTS; i++) {
     tmpbuf[i] = NULL;  _tmpbuf[i] = NULL;
@@ -1569,7 +1571,13 @@ DLLEXPORT int tj3EncodeYUVPlanes8(tjhandle handle, const unsigned char *srcBuf,
   cinfo->image_height = height;
   cinfo->data_precision = 8;
 
+  /* Color conversion and downsampling are the first stages of lossy
+     compression.  TJPARAM_LOSSLESS does not apply to them, and leaving it in
+     effect here would disable subsampling and thus produce planes that are
+     larger than the documented plane sizes. */
+  this->lossless = FALSE;
   setCompDefaults(this, pixelFormat);
+  this->lossless = lossless;
 
   /* Execute only the parts of jpeg_start_compress() that we need.  If we
      were to call the whole jpeg_start_compress() function, then it would try
@@ -1663,6 +1671,7 @@ DLLEXPORT int tj3EncodeYUVPlanes8(tjhandle handle, const unsigned char *srcBuf,
   jpeg_abort_compress(cinfo);
 
 bailout:
+  this->lossless = lossless;
   if (cinfo->global_state > CSTATE_START) jpeg_abort_compress(cinfo);
   free(row_pointer);
   for (i = 0; i < MAX_COMPONENTS; i++) {
